@@ -30,6 +30,10 @@ def alphabet(name, ABS):
             entry("f", b"", b"", b"evil9", level=1, raw_name=b"..\\outside\\f"),
             entry("f", b"", b"", b"evil10", level=1, raw_name=ABS.replace(b"/", b"\\") + b"\\f"),
             entry("d", b"", b"", raw_path=b"..\x00", perms=0o040700),
+            entry("d", ABS + b"/sub/", b"", perms=0o040700, mtime=1000000001),
+            entry("l", b"", b"m", target=b"d/../../outside"),
+            entry("f", b"m/", b"g", b"through-m"),
+            entry("l", b"", b"n", target=b"./.."),
         ]
     return [
         entry("d", b"q/", b""),
@@ -45,7 +49,7 @@ def alphabet(name, ABS):
     ]
 
 
-NAMES = {"A1": ["f", "d/f", "../f", "/ABS/f", "d/../../f", "a\\..\\..\\f(L0)", "..<FF>outside<FF>+f", "w/g", "d/(0555)", "s->d", "w->../outside", "abcd->ABS", "..<NUL>+f", "a<NUL>/../f(L1)", "..\\f(L0)", "..\\outside\\f(L1)", "ABS\\f(L1)", "dir ..<NUL>"],
+NAMES = {"A1": ["f", "d/f", "../f", "/ABS/f", "d/../../f", "a\\..\\..\\f(L0)", "..<FF>outside<FF>+f", "w/g", "d/(0555)", "s->d", "w->../outside", "abcd->ABS", "..<NUL>+f", "a<NUL>/../f(L1)", "..\\f(L0)", "..\\outside\\f(L1)", "ABS\\f(L1)", "dir ..<NUL>", "dir /ABS/sub/", "m->d/../../outside", "m/g", "n->./.."],
          "A2": ["q/", "f", "p/g", "p->q", "p->abcd", "p->w", "abcd->ABS", "w->../outside", "p/z->ABS/x", "abcd/k"]}
 
 
@@ -72,9 +76,12 @@ def run_case(runner, space, case):
     if case.get("pre"):
         # a symlink already present at the final component of an output file
         kind = case["pre"]
-        tgt = {"inside": b"inside-target", "outside": b"../outside/keep.txt", "dangling": b"../outside/created-by-link"}[kind]
+        tgt = {"inside": b"inside-target", "outside": b"../outside/keep.txt", "dangling": b"../outside/created-by-link", "dirs": b"inside-target"}[kind]
         pre = [("inside-target", "f", b"inside", 0o644, 1000000000), ("f", "l", tgt, None, None), ("d", "d", None, 0o755, None), ("d/f", "l", tgt if kind != "inside" else b"../inside-target", None, None),
                ("w", "l", tgt, None, None), ("abcd", "l", tgt, None, None), ("s", "l", tgt, None, None)]
+    if case.get("pre") == "dirs":
+        # directories of the archive's names already exist in the working directory (w= must not touch them)
+        pre = [("d", "d", None, 0o750, 900000000), ("q", "d", None, 0o750, 900000000), ("p", "d", None, 0o750, 900000000)]
     r = runner.run(build, args, stdin=b"y\n" * 12, pre=pre, outside=OUTSIDE)
     root, ABS = holder["root"], holder["abs"]
     readonly = cmd[0] in "lvtp" or "n" in cmd[1:].split("w=")[0]
@@ -92,7 +99,13 @@ def run_case(runner, space, case):
         if readonly:
             viol.append(("c10-readonly-command-mutates", "%s %r succeeded under '%s'" % (name, path, cmd)))
             continue
-        inside = res.startswith(b"fd=") or res == root or res.startswith(root + b"/")
+        region = root
+        if "w=" in cmd:
+            # the extraction directory is the w= directory: only its own creation may touch the working directory
+            region = root + b"/" + cmd.split("w=", 1)[1].encode()
+            if name == "mkdir" and res == region:
+                continue
+        inside = res.startswith(b"fd=") or res == region or res.startswith(region + b"/")
         if not inside:
             if danger and name in ("unlink", "symlink", "remove"):
                 # which dangerous link was traversed, and is its path longer than the entry being created through it?
@@ -114,7 +127,12 @@ def run_case(runner, space, case):
     extra_top = [x for x in r.top if x not in ("root", "outside", "archive.lzh", "stdin", "stdout", "stderr", "oplog")]
     if extra_top:
         viol.append(("c10-sandbox-parent-changed", "new objects next to the extraction root: %r" % extra_top))
-    if case.get("pre") and not readonly:
+    if case.get("pre") == "dirs":
+        for k in (b"d", b"q", b"p"):
+            t = r.tree.get(k)
+            if "w=" in cmd and (t is None or t[0] != "d" or t[1] != 0o750 or t[2] != 900000000):
+                viol.append(("c10-object-outside-w-dir-changed", "%r next to the w= directory was changed: %r" % (k, t)))
+    elif case.get("pre") and not readonly:
         # the pre-existing link must have been replaced, not followed
         if case["pre"] == "inside":
             t = r.tree.get(b"inside-target")
